@@ -473,6 +473,8 @@ def _class_tables(mod, out):
                 raise ExtractError('class %s: base %s' % (cname, ast.unparse(b)))
         if c.keywords or c.decorator_list:
             raise ExtractError('class %s: metaclass / decorator' % cname)
+        if len(bs) > 1:
+            raise ExtractError('class %s: multiple inheritance (method resolution is modelled for single chains)' % cname)
         bases.append((cname, bs))
         bound = []
         for st in c.body:
